@@ -50,21 +50,31 @@ def declare(P, variant):
     return pb, user
 
 
+def _owner_in(problem, assertion):
+    for cname, c in problem.constraints.items():
+        if c._created_from_assertion:
+            continue
+        if any(a.get_id() == assertion.get_id() for a in c.get_z3_assertions()):
+            return cname
+    return None
+
+
 def core_chooser(holder):
+    """cores: subsets of the literals whose assertion is owned by a user constraint (ownership decided
+    by the harness from the constraints' own assertion lists, not from the solver's internal map)"""
     def choose(stub):
-        solver = holder["solver"]
-        mapped = sorted(n for n in stub.tracked if n in solver._map_boolrefs_to_constraints)
-        unmapped = sorted(n for n in stub.tracked if n not in solver._map_boolrefs_to_constraints)
+        pb = holder["solver"].problem
+        owned = sorted(n for n, a in stub.tracked.items() if _owner_in(pb, a) is not None)
+        basic = sorted(n for n in stub.tracked if n not in owned)
         cands = []
-        if len(mapped) <= 6:
-            for r in range(len(mapped) + 1):
-                cands += [list(c) for c in itertools.combinations(mapped, r)]
+        if len(owned) <= 6:
+            for r in range(len(owned) + 1):
+                cands += [list(c) for c in itertools.combinations(owned, r)]
         else:
-            cands = [[]] + [[m] for m in mapped] + [list(mapped), mapped[::2], mapped[1::2], mapped[: len(mapped) // 2], mapped[len(mapped) // 2:]]
+            cands = [[]] + [[m] for m in owned] + [list(owned), owned[::2], owned[1::2], owned[: len(owned) // 2], owned[len(owned) // 2:]]
         k = stub.ex.choose(len(cands), "core") if len(cands) > 1 else 0
-        holder["core"] = cands[k]
-        # basic-rule literals: all of them, in a deterministic order interleaved with the chosen ones
-        return [z3.Bool(n) for n in sorted(cands[k] + unmapped)]
+        holder["core"] = cands[k] + basic
+        return [z3.Bool(n) for n in sorted(cands[k] + basic)]
     return choose
 
 
@@ -101,13 +111,36 @@ def diag_shape(variant):
     return sh
 
 
-def _viol(ctx, path, what):
+def _target(ctx, assertion):
+    """(owner constraint name, index of the assertion inside that constraint) - stable across builds"""
+    for cname, c in ctx.problem.constraints.items():
+        if c._created_from_assertion:
+            continue
+        for i, a in enumerate(c.get_z3_assertions()):
+            if a.get_id() == assertion.get_id():
+                return [cname, i]
+    return None
+
+
+def _viol(ctx, path, what, targets=()):
     base = [formula.to_z3(x) for x in list(path.assume) + list(path.pc)]
+    targets = list(targets)
+    if targets:
+        # pick parameters for which the conflict can be isolated on the first target assertion:
+        # some schedule satisfies every other assertion and violates that one
+        t0 = targets[0]
+        iso = [a for a in ctx.stub.tracked.values() if a.get_id() != t0.get_id()] + [z3.Not(t0)]
+        v, m, _ = formula.solve_shrunk(base + iso, 20000)
+        if v == "sat":
+            params = {n: (formula.val(m, t) if z3.is_expr(t) else t) for n, t in ctx.P.terms.items()}
+            tg = [t for t in (_target(ctx, a) for a in targets[:1]) if t]
+            return {"status": "sat", "queries": 1, "witness": {"params": params, "pins": {}, "what": what, "core": list(ctx.core), "targets": tg}}
     v, m, _ = formula.solve(base, 20000)
     if v != "sat":
         return {"status": "unsat" if v == "unsat" else "unknown", "queries": 1}
     params = {n: (formula.val(m, t) if z3.is_expr(t) else t) for n, t in ctx.P.terms.items()}
-    return {"status": "sat", "queries": 1, "witness": {"params": params, "pins": {}, "what": what, "core": list(ctx.core)}}
+    tg = [t for t in (_target(ctx, a) for a in targets) if t]
+    return {"status": "sat", "queries": 1, "witness": {"params": params, "pins": {}, "what": what, "core": list(ctx.core), "targets": tg}}
 
 
 def _owner(ctx, assertion):
@@ -121,23 +154,19 @@ def _owner(ctx, assertion):
 
 
 def ob_literals_and_map(ctx, path):
-    stub, solver = ctx.stub, ctx.solver
+    """tracking literals are pairwise distinct, and every assertion of every top-level constraint is
+    handed to the solver (tracked) in debug mode"""
+    stub = ctx.stub
     n_track = sum(1 for c in stub.calls if c[0] == "assert_and_track")
     if len(stub.tracked) != n_track:
         return _viol(ctx, path, f"{n_track} tracked assertions but only {len(stub.tracked)} distinct tracking literals")
-    for name, assertion in stub.tracked.items():
-        owner = _owner(ctx, assertion)
-        mapped = solver._map_boolrefs_to_constraints.get(name)
-        if owner != mapped:
-            return _viol(ctx, path, f"literal {name} tracks an assertion of {owner!r} but is mapped to {mapped!r}")
-    # every assertion of every top-level constraint is tracked
     tracked_ids = {a.get_id() for a in stub.tracked.values()}
     for cname, c in ctx.problem.constraints.items():
         if c._created_from_assertion:
             continue
         for a in c.get_z3_assertions():
             if a.get_id() not in tracked_ids:
-                return _viol(ctx, path, f"an assertion of constraint {cname} is not handed to the solver in debug mode: {a}")
+                return _viol(ctx, path, f"an assertion of constraint {cname} is not handed to the solver in debug mode: {a}", [a])
     return {"status": "unsat", "queries": 0}
 
 
@@ -148,12 +177,12 @@ def ob_printed(ctx, path):
     for c in printed_objs:
         if ctx.problem.constraints.get(c.name) is not c:
             return _viol(ctx, path, f"printed constraint {c.name} is not a constraint of the problem")
-    need = {ctx.solver._map_boolrefs_to_constraints[n] for n in ctx.core if n in ctx.solver._map_boolrefs_to_constraints}
-    # specification side: owners computed independently of the solver's own map
+    # owners of the core literals, computed independently of the solver's own bookkeeping
     need_spec = {_owner(ctx, ctx.stub.tracked[n]) for n in ctx.core} - {None}
     got = {c.name for c in printed_objs}
     if need_spec - got:
-        return _viol(ctx, path, f"core {ctx.core} involves constraints {sorted(need_spec)} but only {sorted(got)} are listed")
+        missing = [ctx.stub.tracked[n] for n in ctx.core if _owner(ctx, ctx.stub.tracked[n]) in (need_spec - got)]
+        return _viol(ctx, path, f"core {ctx.core} involves constraints {sorted(need_spec)} but only {sorted(got)} are listed", missing)
     if got - need_spec:
         return _viol(ctx, path, f"constraints {sorted(got - need_spec)} are listed although the core does not involve them")
     header = [a[0] for a in ctx.printed if a and isinstance(a[0], str) and "conflict between" in a[0]]
@@ -166,7 +195,7 @@ def ob_printed(ctx, path):
     return {"status": "unsat", "queries": 0}
 
 
-OBLIGATIONS = {"literals_fresh_and_mapped_to_their_constraint": ob_literals_and_map, "listed_constraints_cover_the_core": ob_printed}
+OBLIGATIONS = {"literals_fresh_and_all_assertions_tracked": ob_literals_and_map, "listed_constraints_cover_the_core": ob_printed}
 
 
 def verdict_shape(variant):
@@ -194,8 +223,10 @@ def verdict_shape(variant):
 
 
 def replay_diag(desc):
-    """Real z3, real debug mode, concrete infeasible instance derived from the witness: the constraints the
-    solver prints must be constraints of the problem and, together with the basic rules, admit no schedule."""
+    """Real z3, real debug mode, no stub. The concrete problem is made infeasible exactly through the
+    assertion the counterexample's core involves: the schedule is pinned (user constraints) to a model of
+    'everything except that assertion'. The constraints the real solver then prints must, together with
+    the basic rules, admit no schedule."""
     import io
     import contextlib
     import symx.harness as H
@@ -203,41 +234,61 @@ def replay_diag(desc):
 
     shape = H.get_shape(desc["module"], desc["shape"])
     w = desc["witness"]
-    P = engine.Params("conc", values=w["params"])
     printed = []
     saved = pss.print if hasattr(pss, "print") else print
-    with contextlib.redirect_stdout(io.StringIO()), contextlib.redirect_stderr(io.StringIO()):
-        pb, user = declare(P, shape.variant)
-        # make it infeasible through the constraints the counterexample's core involves
-        extra = ps.TaskStartAt(name="conflict_1", task=pb.tasks["A"], value=w["params"].get("v1", 2) + 1)
-        if shape.variant in ("many", "all"):
-            ps.TaskStartAt(name="conflict_2", task=pb.tasks["B"], value=10)
-            ps.TaskEndAt(name="conflict_3", task=pb.tasks["B"], value=11)
-        solver = ps.SchedulingSolver(problem=pb, debug=True)
-        pss.print = lambda *a, **k: printed.append(a)
-        try:
-            r = solver.solve()
-        finally:
-            pss.print = saved
-        listed = [a[0] for a in printed if len(a) == 1 and isinstance(a[0], ps.Constraint)]
-        # independent re-solve: basic rules + listed constraints only
-        names = {c.name for c in listed}
-        chk = z3.Solver()
-        for a in solver._solver.assertions():
-            lit = a.arg(0).decl().name()
-            owner = solver._map_boolrefs_to_constraints.get(lit)
-            if owner is None or owner in names:
-                chk.add(a.arg(1))
-        still_unsat = chk.check() == z3.unsat
-    engine.reset_z3_globals()
-    print(f"replay: solve() -> {r}; listed constraints {sorted(names)}; basic rules + listed constraints unsat: {still_unsat}")
-    if r is False and not still_unsat:
-        print("CONFIRMED: the constraints listed as conflicting, together with the basic rules, admit a schedule")
-        return 1
-    bad = [c.name for c in listed if pb.constraints.get(c.name) is not c]
-    if bad:
-        print(f"CONFIRMED: listed constraints {bad} are not constraints of the problem")
-        return 1
+    results = []
+    for tgt in (w.get("targets") or [])[:3]:
+        with contextlib.redirect_stdout(io.StringIO()), contextlib.redirect_stderr(io.StringIO()):
+            P = engine.Params("conc", values=w["params"])
+            pb, user = declare(P, shape.variant)
+            s0 = ps.SchedulingSolver(problem=pb)
+            s0.initialize()
+            allasst = list(s0._solver.assertions())
+            target = pb.constraints[tgt[0]].get_z3_assertions()[tgt[1]]
+            finder = z3.Solver()
+            finder.add([a for a in allasst if a.get_id() != target.get_id()])
+            finder.add(z3.Not(target))
+            if finder.check() != z3.sat:
+                results.append((tgt, "cannot isolate"))
+                continue
+            m = finder.model()
+            consts, _ = formula.constants(allasst)
+            k = 0
+            for n, c in consts.items():
+                if "!" in n or n == "horizon" or n.startswith("Indicator_"):
+                    continue
+                v = m.eval(c, model_completion=True)
+                ps.ConstraintFromExpression(name=f"pin_{k}", expression=c == v)
+                k += 1
+            solver = ps.SchedulingSolver(problem=pb, debug=True)
+            printed.clear()
+            pss.print = lambda *a, **kw: printed.append(a)
+            try:
+                r = solver.solve()
+            finally:
+                pss.print = saved
+            listed = [a[0] for a in printed if len(a) == 1 and isinstance(a[0], ps.Constraint)]
+            names = {c.name for c in listed}
+            chk = z3.Solver()
+            for a in solver._solver.assertions():
+                lit = a.arg(0).decl().name()
+                owner = None
+                for cname, c in pb.constraints.items():
+                    if not c._created_from_assertion and any(x.get_id() == a.arg(1).get_id() for x in c.get_z3_assertions()):
+                        owner = cname
+                if owner is None or owner in names:
+                    chk.add(a.arg(1))
+            still_unsat = chk.check() == z3.unsat
+            bad = [c.name for c in listed if pb.constraints.get(c.name) is not c]
+        engine.reset_z3_globals()
+        results.append((tgt, r, sorted(n for n in names if not n.startswith("pin_")), still_unsat, bad))
+        print(f"replay: conflict through {tgt}: solve() -> {r}; listed (pins omitted) {results[-1][2]}; basic rules + listed constraints unsat: {still_unsat}")
+        if r is False and not still_unsat:
+            print("CONFIRMED: the constraints listed as conflicting, together with the basic rules, admit a schedule")
+            return 1
+        if bad:
+            print(f"CONFIRMED: listed constraints {bad} are not constraints of the problem")
+            return 1
     return 0
 
 
